@@ -30,6 +30,13 @@ class ChunkedReader:
                 except StopIteration:
                     self.parser = None
                     break
+                except BaseException:
+                    # the generator is dead and the bytes it held are gone:
+                    # the position in the stream is lost, so nothing behind
+                    # this point may be parsed as another request, whatever
+                    # the application does with the exception
+                    self.req.force_close()
+                    raise
 
         data = self.buf.getvalue()
         ret, rest = data[:size], data[size:]
